@@ -29,154 +29,161 @@ def run(ck: Checker):
     ck.floor('C04.SEM', 18)
     ck.notes['pattern_simulator_supports'] = supported
 
-    # ---- POL ----
-    neg_name = 'outputs_negation_mapping'
-    pos_name = 'outputs_mapping'
-    tainted = {}
-    for node in ast.walk(fn):
-        tgt = None
-        if isinstance(node, ast.Assign) and len(node.targets) == 1 and isinstance(node.targets[0], ast.Name):
-            tgt = node.targets[0]
-        elif isinstance(node, ast.AnnAssign) and isinstance(node.target, ast.Name) and node.value is not None:
-            tgt = node.target
-        if tgt is not None:
-            v = node.value
-            srcs = [v.body, v.orelse] if isinstance(v, ast.IfExp) else [v]
-            if any(isinstance(s, ast.Subscript) and is_name(s.value, neg_name) for s in srcs):
-                tainted[tgt.id] = node
-    ck.need(len(tainted) >= 2, f'{m.rel}: reads of {neg_name} not found (shape changed)')
-    n_uses = 0
-    for name, defnode in tainted.items():
-        scope = m.parents[defnode]
-        loop = scope
-        while not isinstance(loop, (ast.For, ast.FunctionDef)):
-            loop = m.parents[loop]
-        bad_uses = []
-        for node in ast.walk(loop):
-            if isinstance(node, ast.Name) and node.id == name and isinstance(node.ctx, ast.Load) and node.lineno >= defnode.lineno:
-                par = m.parents[node]
-                n_uses += 1
-                use = norm(m.enclosing_stmt(node))[:90]
-                if isinstance(par, ast.Subscript) and par.slice is node and norm(par.value) in ('output_labels_mapping', 'node_states'):
-                    continue  # key of the search for the NOT user / bookkeeping
-                if isinstance(par, ast.Tuple) and isinstance(m.parents.get(par), ast.Call) and call_name(m.parents[par]) in ('emplace_gate', 'Gate') and 'NOT' in norm(m.parents[par]):
-                    continue  # operand of a newly created NOT
-                if isinstance(par, ast.IfExp) and par.body is node:
-                    bad_uses.append(f'line {node.lineno}: replacement operand/output in `{use}`')
-                elif isinstance(par, ast.Subscript) and norm(par.value).endswith('_gate_to_users'):
-                    bad_uses.append(f'line {node.lineno}: registered as the gate that now has the users')
-                else:
-                    bad_uses.append(f'line {node.lineno}: `{use}`')
-        ck.check(not bad_uses, 'C04.POL', m, defnode, f'`{name}` (label of the gate computing the COMPLEMENT of the output) is used only to find or build a NOT',
-                 'the complement is used in place of the output itself, so the output is replaced by its negation (truth table inverted): ' + '; '.join(bad_uses[:4]),
-                 construct=f'minimize_subcircuits: polarity of {name}')
-    ck.need(n_uses >= 3, f'{m.rel}: only {n_uses} uses of negation-mapped labels found')
+    ck.rule('C04.FOLD', 'minimize_subcircuits folded end to end on model circuits (cone extraction, don\'t-care analysis, renaming, splice through replace_subcircuit, cycle check are the repository\'s code; the cut enumerator is replaced by every k-feasible cut, the synthesiser by an exhaustive search over <= 2 gates or by one that finds nothing): same inputs in order, same number of outputs, same truth table, not more non-trivial gates, no internal error on circuits without functionally equivalent gates')
+    from .. import minimize_fold
+    minimize_fold.fold_minimize(ck, 'C04.FOLD')
+    ck.floor('C04.FOLD', 8)
+    # structural rules about the main loop: they speak where they recognise the code; its behaviour is decided by the fold above
+    with ck.soft('C04.FOLD (minimize_subcircuits folded end to end)'):
+        # ---- POL ----
+        neg_name = 'outputs_negation_mapping'
+        pos_name = 'outputs_mapping'
+        tainted = {}
+        for node in ast.walk(fn):
+            tgt = None
+            if isinstance(node, ast.Assign) and len(node.targets) == 1 and isinstance(node.targets[0], ast.Name):
+                tgt = node.targets[0]
+            elif isinstance(node, ast.AnnAssign) and isinstance(node.target, ast.Name) and node.value is not None:
+                tgt = node.target
+            if tgt is not None:
+                v = node.value
+                srcs = [v.body, v.orelse] if isinstance(v, ast.IfExp) else [v]
+                if any(isinstance(s, ast.Subscript) and is_name(s.value, neg_name) for s in srcs):
+                    tainted[tgt.id] = node
+        ck.need(len(tainted) >= 2, f'{m.rel}: reads of {neg_name} not found (shape changed)')
+        n_uses = 0
+        for name, defnode in tainted.items():
+            scope = m.parents[defnode]
+            loop = scope
+            while not isinstance(loop, (ast.For, ast.FunctionDef)):
+                loop = m.parents[loop]
+            bad_uses = []
+            for node in ast.walk(loop):
+                if isinstance(node, ast.Name) and node.id == name and isinstance(node.ctx, ast.Load) and node.lineno >= defnode.lineno:
+                    par = m.parents[node]
+                    n_uses += 1
+                    use = norm(m.enclosing_stmt(node))[:90]
+                    if isinstance(par, ast.Subscript) and par.slice is node and norm(par.value) in ('output_labels_mapping', 'node_states'):
+                        continue  # key of the search for the NOT user / bookkeeping
+                    if isinstance(par, ast.Tuple) and isinstance(m.parents.get(par), ast.Call) and call_name(m.parents[par]) in ('emplace_gate', 'Gate') and 'NOT' in norm(m.parents[par]):
+                        continue  # operand of a newly created NOT
+                    if isinstance(par, ast.IfExp) and par.body is node:
+                        bad_uses.append(f'line {node.lineno}: replacement operand/output in `{use}`')
+                    elif isinstance(par, ast.Subscript) and norm(par.value).endswith('_gate_to_users'):
+                        bad_uses.append(f'line {node.lineno}: registered as the gate that now has the users')
+                    else:
+                        bad_uses.append(f'line {node.lineno}: `{use}`')
+            ck.check(not bad_uses, 'C04.POL', m, defnode, f'`{name}` (label of the gate computing the COMPLEMENT of the output) is used only to find or build a NOT',
+                     'the complement is used in place of the output itself, so the output is replaced by its negation (truth table inverted): ' + '; '.join(bad_uses[:4]),
+                     construct=f'minimize_subcircuits: polarity of {name}')
+        ck.need(n_uses >= 3, f'{m.rel}: only {n_uses} uses of negation-mapped labels found')
 
-    # ---- OUTS: the trivial branch rewrites every occurrence of a replaced output, in place
-    ck.rule('C04.OUTS', 'when a cone output is replaced by an equivalent gate, every occurrence of it in the circuit outputs is rewritten in order before the gate is removed')
-    outs_writes = [n for n in ast.walk(fn) if isinstance(n, ast.Assign) and norm(n.targets[0]) == 'circuit._outputs']
-    ok = False
-    if len(outs_writes) == 1:
-        v = outs_writes[0].value
-        if isinstance(v, ast.ListComp) and len(v.generators) == 1 and not v.generators[0].ifs and norm(v.generators[0].iter) in ('circuit._outputs', 'circuit.outputs') \
-                and isinstance(v.elt, ast.IfExp) and norm(v.elt.test) == f'{norm(v.generators[0].target)} == output' and norm(v.elt.orelse) == norm(v.generators[0].target):
-            st, suite = outs_writes[0], None
-            par = m.parents[st]
-            suite = par.body if isinstance(par, ast.For) else []
-            rm = [s_ for s_ in suite if norm(s_) == 'circuit.remove_gate(output)']
-            ok = bool(rm) and rm[0].lineno > st.lineno
-    other_writes = [c for c in calls_in(fn) if isinstance(c.func, ast.Attribute) and norm(c.func.value) in ('circuit._outputs', 'circuit.outputs') and c.func.attr in ('remove', 'pop', 'insert', 'append')]
-    subs = [n for n in ast.walk(fn) if isinstance(n, ast.Assign) and isinstance(n.targets[0], ast.Subscript) and norm(n.targets[0].value) in ('circuit._outputs', 'circuit.outputs')]
-    ck.check(ok and not other_writes and not subs, 'C04.OUTS', m, outs_writes[0] if outs_writes else fn,
-             'all occurrences of the replaced output are rewritten (order and multiplicity of the outputs kept) before remove_gate drops the label',
-             'the outputs are not rewritten by an element-wise comprehension over all of circuit._outputs before remove_gate(output): occurrences that are not rewritten are silently dropped by remove_gate',
-             construct='minimize_subcircuits: outputs rewrite in the trivial branch')
+        # ---- OUTS: the trivial branch rewrites every occurrence of a replaced output, in place
+        ck.rule('C04.OUTS', 'when a cone output is replaced by an equivalent gate, every occurrence of it in the circuit outputs is rewritten in order before the gate is removed')
+        outs_writes = [n for n in ast.walk(fn) if isinstance(n, ast.Assign) and norm(n.targets[0]) == 'circuit._outputs']
+        ok = False
+        if len(outs_writes) == 1:
+            v = outs_writes[0].value
+            if isinstance(v, ast.ListComp) and len(v.generators) == 1 and not v.generators[0].ifs and norm(v.generators[0].iter) in ('circuit._outputs', 'circuit.outputs') \
+                    and isinstance(v.elt, ast.IfExp) and norm(v.elt.test) == f'{norm(v.generators[0].target)} == output' and norm(v.elt.orelse) == norm(v.generators[0].target):
+                st, suite = outs_writes[0], None
+                par = m.parents[st]
+                suite = par.body if isinstance(par, ast.For) else []
+                rm = [s_ for s_ in suite if norm(s_) == 'circuit.remove_gate(output)']
+                ok = bool(rm) and rm[0].lineno > st.lineno
+        other_writes = [c for c in calls_in(fn) if isinstance(c.func, ast.Attribute) and norm(c.func.value) in ('circuit._outputs', 'circuit.outputs') and c.func.attr in ('remove', 'pop', 'insert', 'append')]
+        subs = [n for n in ast.walk(fn) if isinstance(n, ast.Assign) and isinstance(n.targets[0], ast.Subscript) and norm(n.targets[0].value) in ('circuit._outputs', 'circuit.outputs')]
+        ck.check(ok and not other_writes and not subs, 'C04.OUTS', m, outs_writes[0] if outs_writes else fn,
+                 'all occurrences of the replaced output are rewritten (order and multiplicity of the outputs kept) before remove_gate drops the label',
+                 'the outputs are not rewritten by an element-wise comprehension over all of circuit._outputs before remove_gate(output): occurrences that are not rewritten are silently dropped by remove_gate',
+                 construct='minimize_subcircuits: outputs rewrite in the trivial branch')
 
-    # ---- KEYDOM ----
-    # keys put into output_labels_mapping
-    key_sources = []
-    lookups = []
-    for node in ast.walk(fn):
-        if isinstance(node, ast.Assign) and isinstance(node.targets[0], ast.Subscript) and is_name(node.targets[0].value, 'output_labels_mapping'):
-            key_sources.append(node)
-        if isinstance(node, ast.Subscript) and is_name(node.value, 'output_labels_mapping') and isinstance(node.ctx, ast.Load):
-            lookups.append(node)
-    seeded_with_inputs = any(isinstance(n, ast.For) and norm(n.iter) == 'inputs' and any('found_patterns[' in norm(s) and isinstance(s, ast.Assign) for s in n.body) for n in ast.walk(fn))
-    ck.need(lookups and key_sources, f'{m.rel}: output_labels_mapping accesses not found')
-    for lk in lookups:
-        key = lk.slice
-        d = None
-        if isinstance(key, ast.Name):
-            defs = [n for n in ast.walk(fn) if isinstance(n, (ast.Assign, ast.AnnAssign)) and is_name(n.targets[0] if isinstance(n, ast.Assign) else n.target, key.id)]
-            d = defs[-1].value if defs else None
-        from_neg = d is not None and isinstance(d, ast.Subscript) and is_name(d.value, neg_name)
-        guarded = any(pol and norm(t) in (f'{norm(key)} in output_labels_mapping',) for t, pol in dominating_tests(m, fn, lk))
-        ok = (not from_neg) or guarded or (not seeded_with_inputs)
-        ck.check(ok, 'C04.KEYDOM', m, m.enclosing_stmt(lk), 'the looked-up label is a key of output_labels_mapping',
-                 f'`{norm(key)}` comes from {neg_name}, whose values are drawn from found_patterns; found_patterns is seeded with the cone INPUTS, but output_labels_mapping only has the filtered outputs as keys: '
-                 f'an output that is the negation of a cone input raises KeyError after a successful search', construct=f'minimize_subcircuits: output_labels_mapping[{norm(key)}]')
+        # ---- KEYDOM ----
+        # keys put into output_labels_mapping
+        key_sources = []
+        lookups = []
+        for node in ast.walk(fn):
+            if isinstance(node, ast.Assign) and isinstance(node.targets[0], ast.Subscript) and is_name(node.targets[0].value, 'output_labels_mapping'):
+                key_sources.append(node)
+            if isinstance(node, ast.Subscript) and is_name(node.value, 'output_labels_mapping') and isinstance(node.ctx, ast.Load):
+                lookups.append(node)
+        seeded_with_inputs = any(isinstance(n, ast.For) and norm(n.iter) == 'inputs' and any('found_patterns[' in norm(s) and isinstance(s, ast.Assign) for s in n.body) for n in ast.walk(fn))
+        ck.need(lookups and key_sources, f'{m.rel}: output_labels_mapping accesses not found')
+        for lk in lookups:
+            key = lk.slice
+            d = None
+            if isinstance(key, ast.Name):
+                defs = [n for n in ast.walk(fn) if isinstance(n, (ast.Assign, ast.AnnAssign)) and is_name(n.targets[0] if isinstance(n, ast.Assign) else n.target, key.id)]
+                d = defs[-1].value if defs else None
+            from_neg = d is not None and isinstance(d, ast.Subscript) and is_name(d.value, neg_name)
+            guarded = any(pol and norm(t) in (f'{norm(key)} in output_labels_mapping',) for t, pol in dominating_tests(m, fn, lk))
+            ok = (not from_neg) or guarded or (not seeded_with_inputs)
+            ck.check(ok, 'C04.KEYDOM', m, m.enclosing_stmt(lk), 'the looked-up label is a key of output_labels_mapping',
+                     f'`{norm(key)}` comes from {neg_name}, whose values are drawn from found_patterns; found_patterns is seeded with the cone INPUTS, but output_labels_mapping only has the filtered outputs as keys: '
+                     f'an output that is the negation of a cone input raises KeyError after a successful search', construct=f'minimize_subcircuits: output_labels_mapping[{norm(key)}]')
 
-    # ---- IDX ----
-    check_sites(ck, R='C04.IDX', only_subcircuit=True)
-    ck.floor('C04.IDX', 2)
+        # ---- IDX ----
+        check_sites(ck, R='C04.IDX', only_subcircuit=True)
+        ck.floor('C04.IDX', 2)
 
-    # ---- SNAP ----
-    snap = [n for n in fn.body if isinstance(n, (ast.Assign, ast.AnnAssign)) and norm(n.value) == f'copy.deepcopy({fn.args.args[0].arg})']
-    eff = Effects(repo)
-    first_mut = None
-    cparam = fn.args.args[0].arg
-    for st in fn.body:
-        for node in ast.walk(st):
-            if isinstance(node, ast.Call):
-                for fi in eff._resolve_call(m, node, None):
-                    for p in fi.params:
-                        if p in fi.mutated:
-                            a = eff._arg_for(node, fi, p, method_call=isinstance(node.func, ast.Attribute) and fi.cls is not None)
-                            if a is not None and norm(a) == cparam:
-                                first_mut = first_mut or st.lineno
-                if isinstance(node.func, ast.Attribute) and norm(node.func.value) == cparam and node.func.attr in eff.mutators('cirbo.core.circuit.circuit', 'Circuit'):
-                    first_mut = first_mut or st.lineno
-            if isinstance(node, (ast.Assign, ast.AugAssign)):
-                for t in (node.targets if isinstance(node, ast.Assign) else [node.target]):
-                    if isinstance(t, (ast.Attribute, ast.Subscript)) and norm(t).startswith(cparam + '.'):
+        # ---- SNAP ----
+        snap = [n for n in fn.body if isinstance(n, (ast.Assign, ast.AnnAssign)) and norm(n.value) == f'copy.deepcopy({fn.args.args[0].arg})']
+        eff = Effects(repo)
+        first_mut = None
+        cparam = fn.args.args[0].arg
+        for st in fn.body:
+            for node in ast.walk(st):
+                if isinstance(node, ast.Call):
+                    for fi in eff._resolve_call(m, node, None):
+                        for p in fi.params:
+                            if p in fi.mutated:
+                                a = eff._arg_for(node, fi, p, method_call=isinstance(node.func, ast.Attribute) and fi.cls is not None)
+                                if a is not None and norm(a) == cparam:
+                                    first_mut = first_mut or st.lineno
+                    if isinstance(node.func, ast.Attribute) and norm(node.func.value) == cparam and node.func.attr in eff.mutators('cirbo.core.circuit.circuit', 'Circuit'):
                         first_mut = first_mut or st.lineno
-        if first_mut:
-            break
-    ck.check(len(snap) == 1 and (first_mut is None or snap[0].lineno < first_mut), 'C04.SNAP', m, snap[0] if snap else fn,
-             'the reference for validation is a deep copy taken before anything can modify the argument',
-             f'snapshot at line {snap[0].lineno if snap else None}, first possible mutation at line {first_mut}', construct='minimize_subcircuits: initial_circuit snapshot')
-    val = [n for n in fn.body if isinstance(n, ast.If) and norm(n.test) == 'enable_validation']
-    ok = False
-    if len(val) == 1:
-        b = val[0].body
-        snapvar = norm(snap[0].targets[0] if isinstance(snap[0], ast.Assign) else snap[0].target) if snap else None
-        ok = len(b) >= 2 and norm(b[0]) == f'miter_circuit = build_miter({cparam}, {snapvar})' and isinstance(b[1], ast.If) \
-            and norm(b[1].test) == 'is_circuit_satisfiable(miter_circuit).answer' and always_raises(b[1].body) and 'FailedValidationError' in norm(b[1].body[-1]) and not b[1].orelse
-    ck.check(ok, 'C04.SNAP', m, val[0] if val else fn, 'validation raises FailedValidationError exactly when the miter of result and snapshot is satisfiable', 'validation branch changed', construct='minimize_subcircuits: validation branch')
-    rets = [n for n in walk_no_nested(fn) if isinstance(n, ast.Return)]
-    ck.check(len(rets) == 1 and norm(rets[0].value) == cparam and fn.body[-1] is rets[0], 'C04.SNAP', m, rets[0] if rets else fn, 'the (possibly replaced) circuit is returned after validation', 'return changed', construct='minimize_subcircuits: return')
+                if isinstance(node, (ast.Assign, ast.AugAssign)):
+                    for t in (node.targets if isinstance(node, ast.Assign) else [node.target]):
+                        if isinstance(t, (ast.Attribute, ast.Subscript)) and norm(t).startswith(cparam + '.'):
+                            first_mut = first_mut or st.lineno
+            if first_mut:
+                break
+        ck.check(len(snap) == 1 and (first_mut is None or snap[0].lineno < first_mut), 'C04.SNAP', m, snap[0] if snap else fn,
+                 'the reference for validation is a deep copy taken before anything can modify the argument',
+                 f'snapshot at line {snap[0].lineno if snap else None}, first possible mutation at line {first_mut}', construct='minimize_subcircuits: initial_circuit snapshot')
+        val = [n for n in fn.body if isinstance(n, ast.If) and norm(n.test) == 'enable_validation']
+        ok = False
+        if len(val) == 1:
+            b = val[0].body
+            snapvar = norm(snap[0].targets[0] if isinstance(snap[0], ast.Assign) else snap[0].target) if snap else None
+            ok = len(b) >= 2 and norm(b[0]) == f'miter_circuit = build_miter({cparam}, {snapvar})' and isinstance(b[1], ast.If) \
+                and norm(b[1].test) == 'is_circuit_satisfiable(miter_circuit).answer' and always_raises(b[1].body) and 'FailedValidationError' in norm(b[1].body[-1]) and not b[1].orelse
+        ck.check(ok, 'C04.SNAP', m, val[0] if val else fn, 'validation raises FailedValidationError exactly when the miter of result and snapshot is satisfiable', 'validation branch changed', construct='minimize_subcircuits: validation branch')
+        rets = [n for n in walk_no_nested(fn) if isinstance(n, ast.Return)]
+        ck.check(len(rets) == 1 and norm(rets[0].value) == cparam and fn.body[-1] is rets[0], 'C04.SNAP', m, rets[0] if rets else fn, 'the (possibly replaced) circuit is returned after validation', 'return changed', construct='minimize_subcircuits: return')
 
-    # ---- SIZE ----
-    finder = [c for c in calls_in(fn) if call_name(c) == 'CircuitFinderSat']
-    ok = False
-    if len(finder) == 1:
-        c = finder[0]
-        kw = {k.arg: norm(k.value) for k in c.keywords}
-        ok = len(c.args) >= 2 and norm(c.args[0]) == 'TruthTableModel(outputs_tt)' and norm(c.args[1]) == 'size - 1' and kw.get('basis') == '_basis' \
-            and norm(single_def(fn, '_basis') or ast.Constant(0)) == 'resolve_basis(basis)'
-        sz = [n for n in ast.walk(fn) if isinstance(n, (ast.Assign, ast.AnnAssign)) and is_name(n.targets[0] if isinstance(n, ast.Assign) else n.target, 'size')]
-        ok = ok and len(sz) == 1 and norm(sz[0].value) == 'subcircuit.size'
-    ck.check(ok, 'C04.SIZE', m, finder[0] if finder else fn, 'the replacement is searched with size - 1 gates in the resolved basis', 'search call changed', construct='minimize_subcircuits: CircuitFinderSat call')
-    ott = [n for n in ast.walk(fn) if isinstance(n, (ast.Assign, ast.AnnAssign)) and is_name(n.targets[0] if isinstance(n, ast.Assign) else n.target, 'outputs_tt')]
-    ok = len(ott) == 1 and isinstance(ott[0].value, ast.ListComp) and norm(ott[0].value.generators[0].iter) == 'enumerate(subcircuit.evaluate_truth_table_with_dont_cares())' \
-        and [norm(i) for i in ott[0].value.generators[0].ifs] == ['subcircuit.outputs[i] in filtered_outputs']
-    ck.check(ok, 'C04.SIZE', m, ott[0] if ott else fn, 'the model lists, in order, exactly the rows of the non-trivial outputs', 'model construction changed', construct='minimize_subcircuits: outputs_tt')
-    skip = [n for n in ast.walk(fn) if isinstance(n, ast.If) and norm(n.test) == 'size > max_subcircuit_size' and isinstance(n.body[-1], ast.Continue)]
-    ck.check(len(skip) == 1, 'C04.SIZE', m, skip[0] if skip else fn, 'cones above the size limit are skipped', 'size limit check missing', construct='minimize_subcircuits: size limit')
-    handlers = [h for n in ast.walk(fn) if isinstance(n, ast.Try) and any(call_name(c) == 'find_circuit' for c in calls_in(ast.Module(body=n.body, type_ignores=[]))) for h in n.handlers]
-    ck.check({norm(h.type) for h in handlers} == {'NoSolutionError', 'SolverTimeOutError'} and all(isinstance(h.body[-1], ast.Continue) for h in handlers), 'C04.SIZE', m, fn,
-             'no solution / time-out leave the circuit unchanged', 'exception handling changed', construct='minimize_subcircuits: search failures')
-    ck.floor('C04.SIZE', 4)
+        # ---- SIZE ----
+        finder = [c for c in calls_in(fn) if call_name(c) == 'CircuitFinderSat']
+        ok = False
+        if len(finder) == 1:
+            c = finder[0]
+            kw = {k.arg: norm(k.value) for k in c.keywords}
+            ok = len(c.args) >= 2 and norm(c.args[0]) == 'TruthTableModel(outputs_tt)' and norm(c.args[1]) == 'size - 1' and kw.get('basis') == '_basis' \
+                and norm(single_def(fn, '_basis') or ast.Constant(0)) == 'resolve_basis(basis)'
+            sz = [n for n in ast.walk(fn) if isinstance(n, (ast.Assign, ast.AnnAssign)) and is_name(n.targets[0] if isinstance(n, ast.Assign) else n.target, 'size')]
+            ok = ok and len(sz) == 1 and norm(sz[0].value) == 'subcircuit.size'
+        ck.check(ok, 'C04.SIZE', m, finder[0] if finder else fn, 'the replacement is searched with size - 1 gates in the resolved basis', 'search call changed', construct='minimize_subcircuits: CircuitFinderSat call')
+        ott = [n for n in ast.walk(fn) if isinstance(n, (ast.Assign, ast.AnnAssign)) and is_name(n.targets[0] if isinstance(n, ast.Assign) else n.target, 'outputs_tt')]
+        ok = len(ott) == 1 and isinstance(ott[0].value, ast.ListComp) and norm(ott[0].value.generators[0].iter) == 'enumerate(subcircuit.evaluate_truth_table_with_dont_cares())' \
+            and [norm(i) for i in ott[0].value.generators[0].ifs] == ['subcircuit.outputs[i] in filtered_outputs']
+        ck.check(ok, 'C04.SIZE', m, ott[0] if ott else fn, 'the model lists, in order, exactly the rows of the non-trivial outputs', 'model construction changed', construct='minimize_subcircuits: outputs_tt')
+        skip = [n for n in ast.walk(fn) if isinstance(n, ast.If) and norm(n.test) == 'size > max_subcircuit_size' and isinstance(n.body[-1], ast.Continue)]
+        ck.check(len(skip) == 1, 'C04.SIZE', m, skip[0] if skip else fn, 'cones above the size limit are skipped', 'size limit check missing', construct='minimize_subcircuits: size limit')
+        handlers = [h for n in ast.walk(fn) if isinstance(n, ast.Try) and any(call_name(c) == 'find_circuit' for c in calls_in(ast.Module(body=n.body, type_ignores=[]))) for h in n.handlers]
+        ck.check({norm(h.type) for h in handlers} == {'NoSolutionError', 'SolverTimeOutError'} and all(isinstance(h.body[-1], ast.Continue) for h in handlers), 'C04.SIZE', m, fn,
+                 'no solution / time-out leave the circuit unchanged', 'exception handling changed', construct='minimize_subcircuits: search failures')
+        ck.floor('C04.SIZE', 4)
+
     ck.rule('C04.CONE', 'cone extraction folded over model circuits with an oracle cut family: leaf patterns, closed cones in topological order, size = gates other than NOT (the search budget), outputs = gates read from outside or circuit outputs, patterns = functions of the leaves, and the don\'t-care rows of evaluate_truth_table_with_dont_cares aligned with the pattern bits')
     from .. import subc_fold
     subc_fold.fold_cones(ck, 'C04.CONE')
@@ -187,6 +194,7 @@ def run(ck: Checker):
     ck.floor('C06.DEC', 2)
     ck.rule('C19.SUBC', 'replace_subcircuit, which splices the resynthesised cone, keeps outputs (order, multiplicity) and external users (shared with C19)')
     from .C19 import subc_rules
-    subc_rules(ck)
+    with ck.soft('C04.FOLD / C19.HIST (replace_subcircuit folded)'):
+        subc_rules(ck)
     ck.assume('NOT DECIDED: reachability analysis of _eval_dont_cares (while-loop counter), the splice of the main loop (renaming, trivial-output short cut beyond the POL/KEYDOM/OUTS/IDX clauses), truth-table equality in general, size non-increase')
     ck.assume('cirbo/minimization/subcircuit.py cannot be imported in this sandbox (mockturtle_wrapper, pysat missing): no test exercises it')
